@@ -105,6 +105,9 @@ def main():
     ap.add_argument("--tier", default="quick")
     ap.add_argument("--seed", default="1")
     ap.add_argument("-v", action="store_true")
+    ap.add_argument("--save-replays", action="store_true",
+                    help="keep the shrunk violating case of every killed mutant as replays/<ID>/mutant-<name>.json "
+                         "(only if it passes on /repo), so that the class is re-checked in seconds on every run")
     args = ap.parse_args()
     pid = args.pid.upper()
     sys.path.insert(0, VERIF)
@@ -138,6 +141,32 @@ def main():
             if args.tests:
                 ok, tail = run_tests(d)
                 tests = "  suite:%s (%s)" % ("pass" if ok else "FAILS", tail)
+            if rc == 1 and args.save_replays and not args.patch:
+                import glob
+                import json
+                found = sorted(glob.glob(os.path.join(d, "_replays", "*.json")))
+                dst_dir = os.path.join(VERIF, "replays", pid)
+                dst = os.path.join(dst_dir, "mutant-%s.json" % name)
+                if found and not os.path.exists(dst):
+                    rp = json.load(open(found[-1]))
+                    # only replays that were *found by the search* (not an existing committed replay)
+                    existing = set()
+                    for f in glob.glob(os.path.join(dst_dir, "*.json")):
+                        try:
+                            existing.add(json.dumps(json.load(open(f))["case"], sort_keys=True))
+                        except Exception:
+                            pass
+                    if json.dumps(rp["case"], sort_keys=True) not in existing:
+                        os.makedirs(dst_dir, exist_ok=True)
+                        json.dump({"property": pid, "driver": rp["driver"], "case": rp["case"],
+                                   "origin": "shrunk witness of mutant %s (tag %s)" % (name, rp.get("tag"))},
+                                  open(dst, "w"), indent=1, sort_keys=True)
+                        p2 = subprocess.run([os.path.join(VERIF, "check"), pid, "--replay", dst], cwd=VERIF,
+                                            stdout=subprocess.PIPE, stderr=subprocess.STDOUT, text=True)
+                        if p2.returncode != 0:
+                            os.unlink(dst)      # would alarm on the unchanged tree: not a regression case
+                        else:
+                            tests = "  [replay saved]" + tests if "tests" in dir() else "  [replay saved]"
             status = {1: "killed", 0: "SURVIVED", 2: "HARNESS-ERROR"}.get(rc, "rc=%d" % rc)
             if rc != 1:
                 survived += 1
